@@ -134,6 +134,23 @@ func init() {
 		o := c.newArrayObj(types.Typ[types.Uint8], n)
 		return SliceV{base: PtrV{obj: o}, len: n, cap: n}
 	})
+	// x/unsafe.CastBytes[T]: little-endian reinterpretation of the first sizeof(T) bytes (amd64)
+	reg("github.com/synnaxlabs/x/unsafe.CastBytes", func(c *Ctx, fn *ssa.Function, a []Value) Value {
+		t := fn.TypeArgs()[0]
+		n, _, ok := isInt(t)
+		if !ok {
+			c.unsupported("CastBytes to non-integer type " + t.String())
+		}
+		bs := c.bytesOf(a[0])
+		if len(bs)*8 < n {
+			return TupleV{c.zero(t), c.newErr("unsafe.CastBytes: byte slice too short")}
+		}
+		v := bs[0]
+		for i := 1; i < n/8; i++ {
+			v = c.tb.Concat(bs[i], v)
+		}
+		return TupleV{v, IfaceV{}}
+	})
 	// strings.Builder: String() uses unsafe.String; copyCheck uses noescape tricks
 	reg("(*strings.Builder).String", func(c *Ctx, fn *ssa.Function, a []Value) Value {
 		p := a[0].(PtrV)
